@@ -228,6 +228,7 @@ type recExec struct {
 	delRev        map[uint64]uint64 // revision of the user's deletion of an object
 	lwSamples     []lwSample        // low-watermark as reported while a round is in progress
 	refresh       time.Duration     // refresh interval (0 = refreshing and pruning disabled)
+	retained      []retainedObj     // object versions read earlier, with what they looked like then
 	inUpdate      uint64
 	inUpdateRetry bool
 }
@@ -239,6 +240,26 @@ func tailCalls(cs []recCall, n int) string {
 	var p []string
 	for _, c := range cs {
 		p = append(p, fmt.Sprintf("%s%d:%d:%v@%v", c.op, c.id, c.data, c.ok, c.at))
+	}
+	return strings.Join(p, " ")
+}
+
+type retainedObj struct {
+	obj  *recObj
+	rev  uint64
+	repr string
+}
+
+func reprObj(o *recObj) string {
+	all := o.Set.All()
+	names := make([]string, 0, len(all))
+	for n := range all {
+		names = append(names, n)
+	}
+	sort.Strings(names)
+	p := []string{fmt.Sprintf("id=%d data=%d other=%d status=%s", o.ID, o.Data, o.Other, o.Status.Kind.String())}
+	for _, n := range names {
+		p = append(p, n+":"+all[n].Kind.String())
 	}
 	return strings.Join(p, " ")
 }
@@ -529,6 +550,12 @@ func (e *recExec) touch(id uint64) {
 	if old, _, ok := e.table.Get(wtxn, recIDIndex.Query(id)); ok {
 		c := old.Clone()
 		c.Other++
+		if e.useSet {
+			// the foreign writer is another reconciler: it reports its own status under its own name
+			// (names sorting before and after this reconciler's "r"; up to five names per object)
+			name := []string{"a", "z", "m", "s"}[c.Other%4]
+			c.Set = c.Set.Set(name, reconciler.StatusDone())
+		}
 		e.table.Insert(wtxn, c)
 		e.mu.Lock()
 		if r, ok := e.ref[id]; ok {
@@ -582,6 +609,20 @@ func (e *recExec) state() string {
 // settleOracle: the clauses of C15 / C16 that hold at every quiet point
 func (e *recExec) settleOracle(o *Out) {
 	rtx := e.db.ReadTxn()
+	// committed object versions are immutable: a version read earlier still looks as it did
+	// (status write-backs work on clones; they must not reach into older versions)
+	for _, r := range e.retained {
+		if now := reprObj(r.obj); now != r.repr {
+			o.Fail("C15", "status-write-changed-an-older-version", map[string]string{"status_set": strconv.FormatBool(e.useSet)},
+				fmt.Sprintf("object version read earlier at revision %d was [%s], now reads [%s]", r.rev, r.repr, now))
+			r.repr = now
+		}
+	}
+	for obj, rev := range e.table.All(rtx) {
+		if len(e.retained) < 400 {
+			e.retained = append(e.retained, retainedObj{obj, rev, reprObj(obj)})
+		}
+	}
 	seen := map[uint64]bool{}
 	e.mu.Lock()
 	defer e.mu.Unlock()
